@@ -1,10 +1,10 @@
 #!/bin/sh
-# usage: tools/try_mutant.sh <patch.diff> <property-id> [tier]
+# usage: tools/try_mutant.sh <patch.diff> <property-id> [tier] [shard-name regex]
 # apply the change in a scratch worktree of /repo's HEAD (never in /repo), run the check against it, remove the worktree
-P="$1"; ID="$2"; T="${3:-quick}"
+P="$1"; ID="$2"; T="${3:-quick}"; ONLY="$4"
 WT=/tmp/try_mutant_$$
 git -C /repo worktree add --detach $WT HEAD -q || exit 2
 git -C $WT apply "$P" || { echo "patch does not apply"; git -C /repo worktree remove --force $WT; exit 3; }
-cd /verif && VERIF_REPO=$WT ./check "$ID" "$T" 2>&1 | tail -12
+cd /verif && VERIF_ONLY="$ONLY" VERIF_REPO=$WT ./check "$ID" "$T" 2>&1 | tail -12
 git -C /repo worktree remove --force $WT
 exit 0
